@@ -25,6 +25,9 @@ class IsNonRandExprVisitor(ModelVisitor):
         if e.arr.size.is_used_rand:
             self._is_nonrand = False
 
+    def visit_expr_array_product(self, e):
+        self.visit_expr_array_sum(e)
+
     def visit_expr_fieldref(self, e):
         # An expression is non-random only if every field it references is
         if e.fm.is_used_rand:
